@@ -352,6 +352,7 @@ struct ActiveCase {
   std::vector<AnswerDef> answers;
   std::string desc;
   bool respBurst = false; // the addressed participant's acknowledge + response arrive in one piece
+  int burst = 1;          // foreign traffic reaches the host in arrival bursts of up to that many bytes
   int busSynMode = 0;     // 0: the bus has its own SYN generator, 1: it has none (the host must generate), 2: it fails after the script
 };
 
@@ -397,6 +398,7 @@ static bool runActive(Rng& r, const ActiveCase& c, const std::string& tag, const
   w.bus.autoSyn = c.busSynMode != 1;
   w.bus.echoCorruptAt = c.echoCorruptAt;
   w.bus.respBurst = c.respBurst;
+  w.bus.burst = c.burst;
   for (auto& p : c.peers) w.bus.peers.push_back(p);
   Item s; s.kind = Item::SYN;
   for (int i = 0; i < 4; i++) w.bus.script.push_back(s);
@@ -528,6 +530,7 @@ static void modeActive(long ncases, const std::string& which) {
     c.cfg.generateSyn = which == "c03" && r.chance(1, 4);
     c.busSynMode = c.cfg.generateSyn ? r.range(0, 2) : 0;
     c.respBurst = r.chance(1, 3);
+    c.burst = which == "c03" && r.chance(1, 3) ? r.pick(std::vector<int>{2, 3, 5}) : 1;
     bool hostileTraffic = which == "c03";
     int nreq = r.range(1, 3);
     int64_t at = (int64_t)r.range(150, 400) * MS;
@@ -558,7 +561,7 @@ static void modeActive(long ncases, const std::string& which) {
       }
       s.gap = 0;
     }
-    c.desc = which + " respburst=" + std::to_string(c.respBurst) + " bussyn=" + std::to_string(c.busSynMode) + " nreq=" + std::to_string(nreq) + " foreign=" + std::to_string(c.items.size()) + " echoCorruptAt=" + std::to_string(c.echoCorruptAt);
+    c.desc = which + " burst=" + std::to_string(c.burst) + " respburst=" + std::to_string(c.respBurst) + " bussyn=" + std::to_string(c.busSynMode) + " nreq=" + std::to_string(nreq) + " foreign=" + std::to_string(c.items.size()) + " echoCorruptAt=" + std::to_string(c.echoCorruptAt);
     current(which + " case " + std::to_string(ci));
     st.n["evaluations"]++;
     ActiveResult res;
